@@ -189,6 +189,19 @@ func init() {
 			}
 			sq, _ := strconv.Atoi(a[2])
 			return fmt.Sprint(p.IsAttacked(parseColorArg(a[1]), board.Square(sq)))
+		case "isattackedby":
+			p, _, _, _, err := fen.Decode(strings.Join(a[4:], " "))
+			if err != nil {
+				return "err"
+			}
+			sq, _ := strconv.Atoi(a[2])
+			var list []board.Piece
+			for _, ch := range a[3] {
+				if ch >= '0' && ch <= '6' {
+					list = append(list, board.Piece(ch-'0'))
+				}
+			}
+			return fmt.Sprint(p.IsAttackedBy(parseColorArg(a[1]), board.Square(sq), list))
 		case "ischecked":
 			p, _, _, _, err := fen.Decode(strings.Join(a[2:], " "))
 			if err != nil {
